@@ -197,12 +197,14 @@ package ice
 //@   ensures nothing-selected-nothing-sent: old(a.getSelectedPair()) == nil ==> unchangedExcept()
 //@ func (*controlledSelector).ContactCandidates
 //@   props C06 C04
+//@   requires C04 configured-timeouts-are-not-negative: s.agent.disconnectedTimeout >= 0 && s.agent.failedTimeout >= 0
 //@   opt nosafety
 //@   ghostvar validated bool = false
 //@   site call validateSelectedPair#1 ghost validated := true
 //@   site call checkKeepalive#1 assert keepalive-re-reads-the-selection-after-validating-it: validated && arg0 == s.agent
 //@ func (*controllingSelector).ContactCandidates
 //@   props C06 C04
+//@   requires C04 configured-timeouts-are-not-negative: s.agent.disconnectedTimeout >= 0 && s.agent.failedTimeout >= 0
 //@   opt nosafety
 //@   ghostvar validated bool = false
 //@   site call validateSelectedPair#1 ghost validated := true
